@@ -157,6 +157,9 @@ def run(chk, scratch):
     # statement speaks about the output annotations of every run that finishes
     jobs = [j + (False,) for j in jobs]
     jobs.append(jobs[0][:4] + (True,))
+    # ... and one run WITHOUT --complete_genedb on an annotation in which every third gene has exon records only, started after a run WITH the
+    # option on the same file under the same HOME (whose database, built without inference, lacks those genes)
+    jobs.append(jobs[0][:4] + ("after-complete-run",))
     worlds = {}
     for seed in sorted(set(j[0] for j in jobs)):
         d = os.path.join(scratch, "w%d" % seed)
@@ -179,6 +182,7 @@ def run(chk, scratch):
                         n += 1
                         id_map[t.id] = "transcript%d.%s.%s" % (n, chrom, "nnic" if n % 3 else "nic")
         pipeline.write_world(w, d, id_map=id_map)
+        w.write_gtf(os.path.join(d, "partial.gtf"), id_map=id_map, no_meta_genes={g.id for i_, g in enumerate(w.genes) if g.transcripts and i_ % 3 == 0})
         worlds[seed] = (d, w, id_map)
 
     def one(job):
@@ -190,6 +194,16 @@ def run(chk, scratch):
         pr = ["--polya_requirement", "never"] if (seed + len(st) + len(dt)) % 2 == 0 else []
         if annotated and len(st) % 2 == 1:
             pr = pr + ["--sqanti_output"]      # the SQANTI-like table is computed between the two annotation dumps of a chromosome
+        if resumed == "after-complete-run":
+            out = os.path.join(d, "out_after_complete")
+            base = ["-d", dt, "-r", os.path.join(d, "g.fa"), "--bam", os.path.join(d, "r.bam"), "-g", os.path.join(d, "partial.gtf"), "-t", "2", "-p", pipeline.PREFIX,
+                    "--no_gzip", "--force", "--model_construction_strategy", st]
+            ra = runner.run_isoquant(["-o", out + "_first", "--complete_genedb"] + base, out + "_home")
+            r = runner.run_isoquant(["-o", out] + base, out + "_home")
+            r["n_split"] = 0
+            if ra["rc"] != 0:
+                r = dict(r, rc=None)
+            return job, out, r
         if resumed:
             r1 = pipeline.run(d, out, data_type=dt, threads=1, annotated=annotated, home=out + "_home",
                               extra=["--model_construction_strategy", st, "--report_novel_unspliced", "true"] + pr, mon=["crash"],
@@ -210,7 +224,10 @@ def run(chk, scratch):
         d, w, id_map = worlds[seed]
         desc = "world=%d strategy=%s data_type=%s annotated=%s%s" % (seed, st, dt, annotated, " [killed after the first chromosome was marked as processed, resumed]" if resumed else "")
         wit = {"world_seed": seed, "strategy": st, "data_type": dt, "annotated": annotated, "killed_and_resumed": resumed}
-        if resumed:
+        if resumed == "after-complete-run":
+            desc = "world=%d strategy=%s data_type=%s annotation with exon-only genes, no --complete_genedb, after a --complete_genedb run under the same HOME" % (seed, st, dt)
+            chk.count("runs_after_a_complete_genedb_run_judged")
+        elif resumed:
             if not r.get("killed"):
                 chk.inconclusive.append("the run to be killed and resumed was not killed: " + desc)
                 continue
